@@ -6,9 +6,9 @@ from pyvc.engine import Engine
 
 META = {
     "level": "other",
-    "technique": "contract-based deductive verification (pyvc) of the three configuration levels of vsg/rule.py (global, group, rule id), of their composition Rule.configure and of the unknown-rule check of rule_list, over dictionary objects (key set + key -> reference map) with a universally quantified ghost attribute name; the per-file levels, the merging of several -c files and 'the effective value is what the rule acts on' by a bounded stand-in (layered configurations through the real config.New / apply_rules.configure_rules)",
-    "text": "Proved for every attribute name ga, every rule object and every configuration dictionary of the documented shape (sections that exist are dictionaries): after Rule.configure the entry self.__dict__[ga] is the value of the rule-id section if it mentions ga, else of a group of the rule that mentions it, else of the global section (only for names of the rule's configurable set), else the value it had (style default); a group or rule-id section cannot add an attribute; the same order for the severity; option objects receive the rule-id value; a deprecated rule that is configured returns its message and is not configured; the configuration dictionaries themselves are not modified (object-precise frame); _validate_configuration_rule_exists raises ConfigurationError exactly when a key of the rule section is neither 'global', 'group' nor the id of a rule, independently of any state. BOUNDED: per-file levels (file_list / file_rules), later -c files over earlier ones, path spellings, and that rule_list.configure calls these functions for every rule.",
-    "note": "Assumption A10: r.x reads r.__dict__['x'] (Python semantics; the contracts speak about __dict__ entries). get_severity_named is a stub (valid configurations name severities that exist). Not under contract: rule_list.configure (debug flag, message assembly), vsg/config.py (process_config_file: 68 of 72 obligations, not claimed), apply_rules.configure_rules_per_option.",
+    "technique": "contract-based deductive verification (pyvc) of the three configuration levels of vsg/rule.py (global, group, rule id), of their composition Rule.configure, of the unknown-rule check of rule_list and of the merge of configuration files (process_config_file), over dictionary objects (key set + key -> reference map) with a universally quantified ghost attribute name; the per-file levels, the merging of several -c files and 'the effective value is what the rule acts on' by a bounded stand-in (layered configurations through the real config.New / apply_rules.configure_rules)",
+    "text": "Proved for every attribute name ga, every rule object and every configuration dictionary of the documented shape (sections that exist are dictionaries): after Rule.configure the entry self.__dict__[ga] is the value of the rule-id section if it mentions ga, else of a group of the rule that mentions it, else of the global section (only for names of the rule's configurable set), else the value it had (style default); a group or rule-id section cannot add an attribute; the same order for the severity; option objects receive the rule-id value; a deprecated rule that is configured returns its message and is not configured; the configuration dictionaries themselves are not modified (object-precise frame); _validate_configuration_rule_exists raises ConfigurationError exactly when a key of the rule section is neither 'global', 'group' nor the id of a rule, independently of any state; process_config_file (the merge of a later -c file into the earlier ones, for files without a file_list section) replaces every section of the same name except the rule section, inside which every key the later file has ('global', 'group', a rule id) is taken from it and every other key is kept, and leaves the later file unchanged. BOUNDED: per-file levels (file_list / file_rules), merging of file_list sections, path spellings, and that rule_list.configure calls these functions for every rule.",
+    "note": "Assumption A10: r.x reads r.__dict__['x'] (Python semantics; the contracts speak about __dict__ entries). get_severity_named is a stub (valid configurations name severities that exist). Not under contract: rule_list.configure (debug flag, message assembly), process_file_list_key (stub, not reached: the contract of process_config_file requires a later file without file_list), config.New / read_configuration_files, apply_rules.configure_rules_per_option.",
 }
 
 QUALS = [
@@ -21,6 +21,7 @@ QUALS = [
     "vsg.rule_list.rule_list.get_list_of_rule_names",
     "vsg.rule_list.rule_does_not_exist_in_list",
     "vsg.rule_list.rule_list._validate_configuration_rule_exists",
+    "vsg.config.process_config_file",
 ]
 
 
@@ -35,7 +36,7 @@ def run():
         for p in probs[:1]:
             c.findings.append(Finding("bounded", "precedence", p, {"scenario_seed": seed, "scenario": info, "observed": p, "how_to_rerun": "cd /verif && /venv/bin/python -c 'from bounded import config_prec; print(config_prec.scenario(%d))'" % seed}, "%s.%s" % (info["rule"], info["attr"])))
     if c.tier == "thorough":
-        run_selftest(c, ["mutants_configure.py"], lambda eng: QUALS)
+        run_selftest(c, ["mutants_configure.py", "mutants_config.py"], lambda eng: QUALS)
     c.trusted += ["assumed contract: %s — %s" % (q, ct["trusted"]) for q, ct in sorted(c.engine.contracts.items()) if ct.get("trusted") and ("configure" in q or "severity" in q or "print_output" in q)]
     c.trusted.append("A10: attribute access r.x is the dictionary entry r.__dict__['x'] (Python semantics, not modelled: the contracts state the entries)")
     return c.finish({"explanation": META["text"]})
